@@ -13,6 +13,7 @@ ANGLES = {
     5: "Prefer a change about ALIASING AND LIFETIME of data: a slice, map or pointer that is now shared between two things that used to own their own (copies of a node, uses of a grouping, revisions of a module, a module and its submodules, two Process runs, the syntax tree and the schema tree), something reused or cached rather than rebuilt, a slice appended to or sorted in place, a reset that clears less than before. It must stay invisible until two holders of the shared thing both change it, or until a second run / second load / second copy comes along.",
     6: "Prefer a change about ORDER AND TIE-BREAKING or about BOUNDARIES: a sort whose comparison ignores a component or is no longer total or stable, first-wins turned into last-wins (or the reverse) where duplicates or equal keys occur, output that now follows map iteration when two keys tie, a loop that starts or stops one element early, a length-vs-capacity, byte-vs-character, signed-vs-unsigned or 32-vs-64-bit slip, a limit checked with < instead of <=. It must need equal keys, a tie, an empty or single-element or maximal collection, or a value exactly on a limit to show.",
     7: "Prefer a change that sits in the code of ONE feature but shows only in COMBINATION with another: a uses inside an augment inside a choice, a deviation of a node that a grouping brought and a third module augmented, an identityref inside a union inside a typedef inside a grouping used from another module, a leaf-list default under a deviated type, an rpc input reached through a submodule of a dated revision, a typedef shadowed in a case of a choice of a list, a leafref path through an augmented node, config inheritance through a uses under an action. Each feature alone, and every pair the existing tests cover, must behave exactly as before.",
+    10: "Prefer a change that is a MODERNISATION or TIDY-UP of the kind that arrives in dependency-free clean-up pull requests: a hand-written loop replaced by a call from slices / maps / sort / strings / bytes / strconv / unicode / errors / path/filepath (slices.Sort vs sort.SliceStable, slices.Compact, strings.Cut vs SplitN, strings.Fields vs Split, strings.EqualFold, TrimSpace vs TrimRight, filepath.Base vs path.Base, strconv.ParseInt with another bit size or base, utf8 vs byte indexing), a switch folded into a table, two branches merged because they 'do the same', an early return hoisted, a defer introduced, a nil check dropped or added, a value receiver turned into a pointer receiver or the reverse, a struct copied instead of shared, fmt.Sprintf replaced by concatenation, an error wrapped or joined. The replacement must agree with the old code on every ordinary input and differ on an edge the old code handled deliberately (stability, duplicates, empty strings, a second separator, non-ASCII, a sign, nil vs empty).",
     8: "Prefer a change that leaves the PRIMARY way of observing the property intact and breaks a SECONDARY observation point that the property (see its anchors / observe_at text) also covers: another accessor or field for the same fact (Entry.Path, Entry.Key, ListAttr, DefaultValues vs Default, Type.Default vs HasDefault, NameMap vs ValueMap vs Values/Names, Identities on the module entry vs Identity.Values vs the identityref type, Import.Module, Entry.Uses under StoreUses, Entry.Augments/Augmented, GetErrors vs the return value of Process, FindModuleByNamespace vs Namespace, the returned byte count vs the bytes written, the goyang command's output vs the library result), a second code path to the same result (Read vs Parse, GetModule vs Process+ToEntry, String vs Bytes vs the writer), or the same query asked a second time.",
 }
 
